@@ -16,7 +16,7 @@ def _mk(mode, n, m, ob, extra=None, **kw):
         defs.update(extra)
     bmax = max(1, (min(m, 1024) + 63) // 64)
     unwind = max(64 * bmax + n + 4, 70)
-    srcs = ["lib/src/bpm.c"] + (["lib/src/sequence_distance.c"] if mode == 4 else [])
+    srcs = ["lib/src/bpm.c"] + (["lib/src/sequence_distance.c"] if mode in (4, 6) else [])
     cflags, d2 = [], {"NOHAVE_AVX2": None}
     if mode == 3:
         cflags = ["-I" + os.path.join(HARNESS, "shim")]
@@ -24,13 +24,13 @@ def _mk(mode, n, m, ob, extra=None, **kw):
     defs.update(d2)
     name = kw.pop("name", "m%d_n%d_m%d" % (mode, n, m))
     return Inst(ob=ob, name=name, harness="c11_bpm.c", defs=defs, srcs=srcs, cflags=cflags,
-                models=["models/vin.c", "models/msg.c"] + (["models/galloc_stub.c"] if mode == 4 else []),
+                models=["models/vin.c", "models/msg.c"] + (["models/galloc_stub.c"] if mode in (4, 6) else []),
                 native_srcs=["lib/src/tldevel.c"],
                 unwind=unwind, unwind_pat=[("bpm_block", r"b <= y", bmax + 1), ("bpm_block", r"while \(score\[y\]", bmax + 1),
                                            ("bpm_block", r"block < b_max", bmax + 1), ("bpm_block", r"int c = 0; c < SIGMA", 14)],
                 nb=max(n + m, 16), timeout=kw.pop("timeout", 600), mem_gb=kw.pop("mem_gb", 4),
                 funcs={1: ["bpm_block"], 5: ["bpm_block"], 2: ["bpm", "bpm_block"], 3: ["bpm_256", "add256", "bitShiftLeft256ymm", "set_broadcast_mask", "bpm_block"],
-                       4: ["calc_distance", "bpm_block"]}[mode],
+                       4: ["calc_distance", "bpm_block"], 6: ["calc_distance", "bpm_block", "bpm"]}[mode],
                 bound="text length %d, pattern length %d, all contents over 13 classes" % (n, m), cost=n * m, **kw)
 
 def instances(tier):
@@ -48,4 +48,12 @@ def instances(tier):
             out.append(_mk(3, n, m, "O2", desc="bpm_256 (AVX2 shim) == bpm_block, n=%d m=%d" % (n, m)))
     for n, m in ((2, 1), (3, 3), (3, 2)) if tier == "quick" else ((2, 1), (2, 2), (3, 1), (3, 2), (3, 3), (4, 2), (4, 4), (5, 3)):
         out.append(_mk(4, n, m, "O3", desc="calc_distance argument order, lengths %d/%d" % (n, m)))
+    # word-boundary instances: constant backdrop, symbolic windows of 2 symbols at both ends of text and pattern
+    bd = {"VK_BACKDROP": None, "VK_W1": 2, "VK_W2": 2, "VK_BD_A": 0, "VK_BD_B": 2, "VK_BD_MOD": 13}
+    edge = [(6, 65, 64), (6, 64, 63), (2, 64, 63)] if tier == "quick" else [(6, 65, 64), (6, 64, 63), (6, 66, 65), (6, 64, 64), (2, 64, 63), (2, 63, 62), (3, 130, 129), (3, 129, 128), (3, 66, 65), (3, 200, 192)]
+    for mode, n, m in edge:
+        i = _mk(mode, n, m, "O4", extra=bd, name="edge_m%d_n%d_m%d" % (mode, n, m), timeout=900 if tier == "quick" else 3600, mem_gb=10)
+        i.nb = 16
+        i.bound = "text %d, pattern %d: constant backdrop, first 2 and last 2 symbols of text and pattern symbolic over 13 classes (partially symbolic instance)" % (n, m)
+        out.append(i)
     return out
